@@ -20,7 +20,7 @@ from contracts.c05_parse import LoaderT, yaml_doc, file_of
 from contracts import c05_cli  # noqa: F401  (contracts of ensure_config_section / set_config_value)
 from contracts.c06_output import Violations, rendering
 from contracts.c10_orchestrator import OrchT, Viols, S_out, S_gs, rules_of, fin_all
-from contracts.c07_parallel import OrchInitT, sequential
+from contracts.c07_parallel import OrchInitT, sequential, project_config_loadable
 
 U = "src/cli/utils.py::"
 SH = "src/cli/linters/shared.py::"
@@ -83,12 +83,28 @@ class LoadConfigFile:
         return fs_exists(path_of_str(config_file))
 
 
+detected_root = uf("detected_project_root", [Paths], PathT)  # marker search starting at the first path (C09)
+
+
+def run_root(path_objs, project_root):
+    """The project root of a run: the explicit one, else the detected one."""
+    return project_root if project_root is not None else detected_root(path_objs)
+
+
+def run_config_ok(path_objs, config_file, project_root):
+    """The configuration files the run may read parse to a mapping (or are empty / absent): the --config file, and the
+    .thailint.yaml / .thailint.json of the project root (preconditions of LinterConfigLoader.load, contracts/c05_parse.py;
+    any other document makes the loader raise, which the command wrapper reports as exit 2)."""
+    return (True if config_file is None else (len(config_file) == 0 or config_doc_ok(config_file))) \
+        and project_config_loadable(run_root(path_objs, project_root))
+
+
 @contract(U + "get_or_detect_project_root", props=["C06"], types=dict(path_objs=Paths, project_root=Opt(PathT)), returns=PathT,
           assumed="project-root detection (marker search on the file system, src/utils/project_root.py): covered by C09; "
-                  "here only: no output, no exit")
+                  "here only: a function of the paths, the explicit root wins, no output, no exit")
 class GetOrDetectProjectRoot:
-    def ensures_explicit_root_wins(project_root, result):
-        return implies(project_root is not None, result == project_root)
+    def value(path_objs, project_root):
+        return run_root(path_objs, project_root)
 
 
 @contract(U + "setup_base_orchestrator", no_selftest=True, props=["C06", "C05"],
@@ -96,15 +112,15 @@ class GetOrDetectProjectRoot:
                      orchestrator=OrchInitT),
           returns=OrchInitT, raises=["SystemExit", "Exception"], modifies=["stderr"], exc=Int)
 class SetupBaseOrchestrator:
-    def requires(config_file):
-        return config_file is None or len(config_file) == 0 or config_doc_ok(config_file)
+    def requires(path_objs, config_file, project_root):
+        return run_config_ok(path_objs, config_file, project_root)
 
     def on_raise_missing_config_is_exit_2(config_file, exc, exc_class):
         return implies(exc_class == "SystemExit",
-                       exc == 2 and config_file is not None and not fs_exists(path_of_str(config_file)))
+                       exc == 2 and (False if config_file is None else not fs_exists(path_of_str(config_file))))
 
     def ensures_config_file_exists_when_given(config_file):
-        return implies(config_file is not None and len(config_file) > 0, fs_exists(path_of_str(config_file)))
+        return True if config_file is None else implies(len(config_file) > 0, fs_exists(path_of_str(config_file)))
 
 
 # ------------------------------------------------------------------------------------------ running the linters
@@ -208,7 +224,7 @@ def exits_like_the_rendered_list(L, fmt, exc, exc_class, stdout, old):
           inline=["_setup_magic_numbers_orchestrator", "_run_magic_numbers_lint"])
 class ExecuteMagicNumbersLint:
     def requires(params):
-        return params.config_file is None or len(params.config_file) == 0 or config_doc_ok(params.config_file)
+        return run_config_ok(params.path_objs, params.config_file, params.project_root)
 
     def raises_when(params):
         return True  # NoReturn
@@ -225,7 +241,7 @@ class ExecuteMagicNumbersLint:
           inline=["_setup_and_validate", "_setup_performance_orchestrator", "_run_all_perf_lint", "_filter_by_rule"])
 class ExecutePerfLint:
     def requires(params):
-        return params.config_file is None or len(params.config_file) == 0 or config_doc_ok(params.config_file)
+        return run_config_ok(params.path_objs, params.config_file, params.project_root)
 
     def raises_when(params):
         return True
@@ -281,14 +297,14 @@ class ParseJsonRules:
           returns=OrchInitT, raises=["SystemExit", "Exception"], modifies=["stderr"], exc=Int,
           inline=["_apply_orchestrator_config", "_apply_inline_rules"])
 class SetupFilePlacementOrchestrator:
-    def requires(config_file):
-        return config_file is None or len(config_file) == 0 or config_doc_ok(config_file)
+    def requires(path_objs, config_file, project_root):
+        return run_config_ok(path_objs, config_file, project_root)
 
     def on_raise_usage_errors_are_exit_2(config_file, rules, exc, exc_class):
         # invalid --rules JSON, or (no --rules) a --config file that does not exist
         return implies(exc_class == "SystemExit",
-                       exc == 2 and ((rules is not None and len(rules) > 0 and not json_valid(rules))
-                                     or (config_file is not None and not fs_exists(path_of_str(config_file)))))
+                       exc == 2 and ((False if rules is None else (len(rules) > 0 and not json_valid(rules)))
+                                     or (False if config_file is None else not fs_exists(path_of_str(config_file)))))
 
 
 @contract(ST + "_execute_file_placement_lint", no_selftest=True, props=["C06"],
@@ -297,8 +313,8 @@ class SetupFilePlacementOrchestrator:
                      violations=Violations),
           raises=["SystemExit", "Exception"], modifies=["stdout", "stderr"], exc=Int)
 class ExecuteFilePlacementLint:
-    def requires(config_file):
-        return config_file is None or len(config_file) == 0 or config_doc_ok(config_file)
+    def requires(path_objs, config_file, project_root):
+        return run_config_ok(path_objs, config_file, project_root)
 
     def raises_when(path_objs):
         return True
@@ -310,10 +326,15 @@ class ExecuteFilePlacementLint:
 # ---- pipeline: custom option applied to the configuration before linting
 @contract(ST + "_apply_pipeline_config_override", no_selftest=True, props=["C06", "C05"],
           types=dict(orchestrator=OrchInitT, min_continues=Opt(Int), verbose=Bool, pipeline_config=Any),
-          raises=["TypeError"], modifies=["orchestrator.config"])
+          raises=["TypeError"], modifies=["orchestrator.config"], dynamic_type_errors="raise",
+          inline=["ensure_config_section", "set_config_value"])
 class ApplyPipelineConfigOverride:
     def ensures_no_option_no_change(orchestrator, min_continues, old):
         return implies(min_continues is None, orchestrator.config == old.orchestrator.config)
+
+    def ensures_given_option_is_in_force(orchestrator, min_continues):
+        return implies(min_continues is not None,
+                       option_in_force(orchestrator.config, "collection_pipeline", "min_continues", min_continues))
 
 
 @contract(ST + "_execute_pipeline_lint", no_selftest=True, props=["C06"],
@@ -323,8 +344,8 @@ class ApplyPipelineConfigOverride:
           raises=["SystemExit", "Exception"], modifies=["stdout", "stderr"], exc=Int,
           inline=["_setup_pipeline_orchestrator", "_run_pipeline_lint"])
 class ExecutePipelineLint:
-    def requires(config_file):
-        return config_file is None or len(config_file) == 0 or config_doc_ok(config_file)
+    def requires(path_objs, config_file, project_root):
+        return run_config_ok(path_objs, config_file, project_root)
 
     def raises_when(path_objs):
         return True
@@ -334,8 +355,8 @@ class ExecutePipelineLint:
 
 
 # ---- the other executors built by create_linter_command: the same statement, one contract each (same proof shape as
-# ---- _execute_magic_numbers_lint). Not under a full contract: _execute_nesting_lint, _execute_srp_lint, _execute_dry_lint
-# ---- (their option-override helpers carry C05 preconditions on the loaded configuration; covered by c06-exit-shape).
+# ---- _execute_magic_numbers_lint). _execute_nesting_lint / _execute_srp_lint follow below (option overrides);
+# ---- and _execute_dry_lint (own config loading).
 DOC = "src/cli/linters/documentation.py::"
 RS = "src/cli/linters/rust.py::"
 
@@ -346,7 +367,7 @@ RS = "src/cli/linters/rust.py::"
           inline=["_setup_improper_logging_orchestrator", "_run_improper_logging_lint"])
 class ExecuteImproperLoggingLint:
     def requires(params):
-        return params.config_file is None or len(params.config_file) == 0 or config_doc_ok(params.config_file)
+        return run_config_ok(params.path_objs, params.config_file, params.project_root)
 
     def raises_when(params):
         return True
@@ -361,7 +382,7 @@ class ExecuteImproperLoggingLint:
           inline=["_setup_method_property_orchestrator", "_run_method_property_lint"])
 class ExecuteMethodPropertyLint:
     def requires(params):
-        return params.config_file is None or len(params.config_file) == 0 or config_doc_ok(params.config_file)
+        return run_config_ok(params.path_objs, params.config_file, params.project_root)
 
     def raises_when(params):
         return True
@@ -376,7 +397,7 @@ class ExecuteMethodPropertyLint:
           inline=["_setup_stateless_class_orchestrator", "_run_stateless_class_lint"])
 class ExecuteStatelessClassLint:
     def requires(params):
-        return params.config_file is None or len(params.config_file) == 0 or config_doc_ok(params.config_file)
+        return run_config_ok(params.path_objs, params.config_file, params.project_root)
 
     def raises_when(params):
         return True
@@ -391,7 +412,7 @@ class ExecuteStatelessClassLint:
           inline=["_setup_lazy_ignores_orchestrator", "_run_lazy_ignores_lint"])
 class ExecuteLazyIgnoresLint:
     def requires(params):
-        return params.config_file is None or len(params.config_file) == 0 or config_doc_ok(params.config_file)
+        return run_config_ok(params.path_objs, params.config_file, params.project_root)
 
     def raises_when(params):
         return True
@@ -406,7 +427,7 @@ class ExecuteLazyIgnoresLint:
           inline=["_setup_lbyl_orchestrator", "_run_lbyl_lint"])
 class ExecuteLbylLint:
     def requires(params):
-        return params.config_file is None or len(params.config_file) == 0 or config_doc_ok(params.config_file)
+        return run_config_ok(params.path_objs, params.config_file, params.project_root)
 
     def raises_when(params):
         return True
@@ -421,7 +442,7 @@ class ExecuteLbylLint:
           inline=["_setup_stringly_typed_orchestrator", "_run_stringly_typed_lint"])
 class ExecuteStringlyTypedLint:
     def requires(params):
-        return params.config_file is None or len(params.config_file) == 0 or config_doc_ok(params.config_file)
+        return run_config_ok(params.path_objs, params.config_file, params.project_root)
 
     def raises_when(params):
         return True
@@ -436,7 +457,7 @@ class ExecuteStringlyTypedLint:
           inline=["_setup_file_header_orchestrator", "_run_file_header_lint"])
 class ExecuteFileHeaderLint:
     def requires(params):
-        return params.config_file is None or len(params.config_file) == 0 or config_doc_ok(params.config_file)
+        return run_config_ok(params.path_objs, params.config_file, params.project_root)
 
     def raises_when(params):
         return True
@@ -451,7 +472,7 @@ class ExecuteFileHeaderLint:
           inline=["_setup_unwrap_abuse_orchestrator", "_run_unwrap_abuse_lint"])
 class ExecuteUnwrapAbuseLint:
     def requires(params):
-        return params.config_file is None or len(params.config_file) == 0 or config_doc_ok(params.config_file)
+        return run_config_ok(params.path_objs, params.config_file, params.project_root)
 
     def raises_when(params):
         return True
@@ -466,7 +487,7 @@ class ExecuteUnwrapAbuseLint:
           inline=["_setup_clone_abuse_orchestrator", "_run_clone_abuse_lint"])
 class ExecuteCloneAbuseLint:
     def requires(params):
-        return params.config_file is None or len(params.config_file) == 0 or config_doc_ok(params.config_file)
+        return run_config_ok(params.path_objs, params.config_file, params.project_root)
 
     def raises_when(params):
         return True
@@ -481,7 +502,7 @@ class ExecuteCloneAbuseLint:
           inline=["_setup_blocking_async_orchestrator", "_run_blocking_async_lint"])
 class ExecuteBlockingAsyncLint:
     def requires(params):
-        return params.config_file is None or len(params.config_file) == 0 or config_doc_ok(params.config_file)
+        return run_config_ok(params.path_objs, params.config_file, params.project_root)
 
     def raises_when(params):
         return True
@@ -496,7 +517,7 @@ class ExecuteBlockingAsyncLint:
           inline=["_setup_and_validate", "_setup_performance_orchestrator", "_run_string_concat_lint"])
 class ExecuteStringConcatLint:
     def requires(params):
-        return params.config_file is None or len(params.config_file) == 0 or config_doc_ok(params.config_file)
+        return run_config_ok(params.path_objs, params.config_file, params.project_root)
 
     def raises_when(params):
         return True
@@ -511,13 +532,116 @@ class ExecuteStringConcatLint:
           inline=["_setup_and_validate", "_setup_performance_orchestrator", "_run_regex_in_loop_lint"])
 class ExecuteRegexInLoopLint:
     def requires(params):
-        return params.config_file is None or len(params.config_file) == 0 or config_doc_ok(params.config_file)
+        return run_config_ok(params.path_objs, params.config_file, params.project_root)
 
     def raises_when(params):
         return True
 
     def at_exit_code_and_output_agree(params, violations, exc, exc_class, stdout, old):
         return exits_like_the_rendered_list(violations, params.format, exc, exc_class, stdout, old)
+
+
+# ---- executors with command-line options that override the configuration (nesting --max-depth, srp --max-methods /
+# ---- --max-loc): besides the exit/output agreement, a completed run (exit 0 / 1) had EVERY given option in force --
+# ---- an option value is never silently dropped; whether the value is acceptable is decided by the linter's config
+# ---- validation (ValueError -> exit 2 through the command wrapper), which can only happen if the value reaches it
+SQ = "src/cli/linters/structure_quality.py::"
+
+
+def option_in_force(config, section, key, value):
+    return section in config and isinstance(config[section], dict) and key in config[section] and config[section][key] == value
+
+
+@contract(SQ + "_execute_nesting_lint", no_selftest=True, props=["C06"],
+          types=dict(path_objs=Paths, config_file=Opt(Str), format=Str, max_depth=Opt(Int), recursive=Bool, parallel=Bool,
+                     verbose=Bool, project_root=Opt(PathT), orchestrator=OrchInitT, all_violations=Viols,
+                     nesting_violations=Violations, nesting_config=Any),
+          raises=["SystemExit", "Exception"], modifies=["stdout", "stderr"], exc=Int, dynamic_type_errors="raise",
+          inline=["_setup_nesting_orchestrator", "_run_nesting_lint", "_apply_nesting_config_override",
+                  "_apply_nesting_to_languages"])
+class ExecuteNestingLint:
+    def requires(path_objs, config_file, project_root):
+        return run_config_ok(path_objs, config_file, project_root)
+
+    def raises_when(path_objs):
+        return True
+
+    def at_exit_code_and_output_agree(format, nesting_violations, exc, exc_class, stdout, old):
+        return exits_like_the_rendered_list(nesting_violations, format, exc, exc_class, stdout, old)
+
+    def at_exit_given_option_was_in_force(max_depth, orchestrator, exc, exc_class):
+        return implies(exc_class == "SystemExit" and exc != 2 and max_depth is not None,
+                       option_in_force(orchestrator.config, "nesting", "max_nesting_depth", max_depth))
+
+
+@contract(SQ + "_execute_srp_lint", no_selftest=True, props=["C06"],
+          types=dict(path_objs=Paths, config_file=Opt(Str), format=Str, max_methods=Opt(Int), max_loc=Opt(Int), recursive=Bool,
+                     parallel=Bool, verbose=Bool, project_root=Opt(PathT), orchestrator=OrchInitT, all_violations=Viols,
+                     srp_violations=Violations, srp_config=Any),
+          raises=["SystemExit", "Exception"], modifies=["stdout", "stderr"], exc=Int, dynamic_type_errors="raise",
+          inline=["_setup_srp_orchestrator", "_run_srp_lint", "_apply_srp_config_override"])
+class ExecuteSrpLint:
+    def requires(path_objs, config_file, project_root):
+        return run_config_ok(path_objs, config_file, project_root)
+
+    def raises_when(path_objs):
+        return True
+
+    def at_exit_code_and_output_agree(format, srp_violations, exc, exc_class, stdout, old):
+        return exits_like_the_rendered_list(srp_violations, format, exc, exc_class, stdout, old)
+
+    def at_exit_given_options_were_in_force(max_methods, max_loc, orchestrator, exc, exc_class):
+        return implies(exc_class == "SystemExit" and exc != 2 and max_methods is not None,
+                       option_in_force(orchestrator.config, "srp", "max_methods", max_methods)) \
+            and implies(exc_class == "SystemExit" and exc != 2 and max_loc is not None,
+                        option_in_force(orchestrator.config, "srp", "max_loc", max_loc))
+
+
+# ---- dry: own config loading (--config read for its `dry` section only), --min-lines / --no-cache / --clear-cache
+@contract(CS + "_clear_dry_cache", props=["C06"], types=dict(orchestrator=OrchInitT, verbose=Bool),
+          assumed="deletes the cache file on disk (Path.unlink): no output, no exit, configuration untouched")
+class ClearDryCache:
+    def ensures(orchestrator, old):
+        return orchestrator.config == old.orchestrator.config
+
+
+@contract(CS + "_load_dry_config_file", no_selftest=True, props=["C06", "C05"],
+          types=dict(orchestrator=OrchInitT, config_file=Str, verbose=Bool, config_path=PathT, config=Any, dry_config=Any),
+          raises=["SystemExit", "Exception"], modifies=["orchestrator.config", "stderr"], exc=Int, dynamic_type_errors="raise")
+class LoadDryConfigFile:
+    def on_raise_missing_file_is_exit_2(config_file, exc, exc_class):
+        return implies(exc_class == "SystemExit", exc == 2 and not fs_exists(path_of_str(config_file)))
+
+    def ensures_only_existing_files_are_loaded(config_file):
+        return fs_exists(path_of_str(config_file))
+
+
+@contract(CS + "_execute_dry_lint", no_selftest=True, props=["C06"],
+          types=dict(path_objs=Paths, config_file=Opt(Str), format=Str, min_lines=Opt(Int), no_cache=Bool, clear_cache=Bool,
+                     recursive=Bool, parallel=Bool, verbose=Bool, project_root=Opt(PathT), orchestrator=OrchInitT,
+                     all_violations=Viols, dry_violations=Violations, dry_config=Any, config=Any, config_path=PathT),
+          raises=["SystemExit", "Exception"], modifies=["stdout", "stderr"], exc=Int, dynamic_type_errors="raise",
+          inline=["_setup_dry_orchestrator", "_run_dry_lint", "_apply_dry_config_override"])
+class ExecuteDryLint:
+    def requires(path_objs, config_file, project_root):
+        return project_config_loadable(run_root(path_objs, project_root))  # (--config is read for its dry section only)
+
+    def raises_when(path_objs):
+        return True
+
+    def at_exit_code_and_output_agree(format, dry_violations, exc, exc_class, stdout, old):
+        return exits_like_the_rendered_list(dry_violations, format, exc, exc_class, stdout, old)
+
+    def at_exit_given_options_were_in_force(min_lines, no_cache, orchestrator, exc, exc_class):
+        return implies(exc_class == "SystemExit" and exc != 2 and min_lines is not None,
+                       option_in_force(orchestrator.config, "dry", "min_duplicate_lines", min_lines)) \
+            and implies(exc_class == "SystemExit" and exc != 2 and no_cache,
+                        option_in_force(orchestrator.config, "dry", "cache_enabled", False))
+
+    def at_exit_missing_config_is_exit_2(config_file, exc, exc_class):
+        # property text: "missing config" => exit 2: no completed run (exit 0 / 1) with a --config file that does not exist
+        return True if config_file is None else implies(exc_class == "SystemExit" and exc != 2 and len(config_file) > 0,
+                                                        fs_exists(path_of_str(config_file)))
 
 
 # ------------------------------------------------------------------------------------------ all 20 executors: shape
